@@ -230,7 +230,7 @@ def model_vs_impl(ctx, rep, data, members):
 
 
 # layout features py7zr is known to misread (zero_folder, partial_crc, multifolder_empty_between were repaired in /repo)
-PRIORITY = ["no_substreams", "packpos", "folder_crc_multi", "dir_without_dir_attribute", "emptyfile_with_dir_attribute"]
+PRIORITY = ["no_substreams", "dir_without_dir_attribute", "emptyfile_with_dir_attribute"]
 FEATURES = [None, None, None, "packpos", "no_substreams", "partial_crc", "zero_folder", "partial_vectors"]
 
 
